@@ -15,7 +15,7 @@ DELAYS = [0, 0, 0, 1e-3, 0.05, 0.1 - E, 0.1, 0.1 + E, 0.15, 0.3, 1.0]
 SHORT = [0, 0, 1e-3, 0.05, 0.1]
 ASYNC_KINDS = ['async', 'async', 'async', 'amethod', 'aclassm']
 SYNC_KINDS = ['sync', 'smethod', 'sclassm']
-EXCS = ['ValueError', 'KeyError', 'RuntimeError', 'Custom', 'LoopClosed', 'NoLoop', 'OSError', 'ZeroDivisionError']
+EXCS = ['ValueError', 'KeyError', 'RuntimeError', 'Custom', 'LoopClosed', 'NoLoop', 'OSError', 'ZeroDivisionError', 'Unhashable', 'TwoArg', 'Chained']
 EXCS_ALL = EXCS + ['TimeoutError']  # a user-raised TimeoutError is treated by the library as a handler timeout (cancels pending child results)
 
 DEFAULT = dict(
@@ -231,6 +231,11 @@ def graph_scenario(n: int, mask: int, entry: int, rng: random.Random, traffic: b
     actors = [[['disp', 0, entry, rng.choice(['await', 'fire']), rng.choice(SHORT), {}], ['await', 0]]]
     if traffic:
         actors.append([['sleep', rng.choice(SHORT)], ['disp', 0, rng.randrange(n), 'fire', 0, {}], ['disp', 1, rng.randrange(n), 'await', 0, {}]])
+    if n >= 3 and rng.random() < 0.2:
+        # several buses created under one requested name (the library renames all but the first): loop prevention and the path are
+        # name-based, so the names they end up with must still tell them apart
+        for k in rng.sample(range(n), rng.randint(3, n)):
+            buses[k]['name'] = 'Same'
     sc = {'seed': rng.randrange(1 << 30), 'buses': buses, 'fwd': fwd, 'handlers': hs, 'actors': actors, 'cap': 60.0}
     return sc
 
@@ -480,7 +485,12 @@ def rand_payload(rng: random.Random, depth: int = 0):
         if x < 0.78:
             return [val(d + 1) for _ in range(rng.randint(0, 4))]
         return {rng.choice(['k', 'key', 'ключ', 'a b', 'x.y', '0', 'nested']) + str(j): val(d + 1) for j in range(rng.randint(0, 3))}
-    return {f'p{j}_{rng.choice(["data", "msg", "when", "cfg", "items"])}': val(0) for j in range(rng.randint(0, 4))}
+    out = {f'p{j}_{rng.choice(["data", "msg", "when", "cfg", "items"])}': val(0) for j in range(rng.randint(0, 4))}
+    if depth == 0 and rng.random() < 0.08:
+        # a legal event (extra fields of any type are allowed) that has no JSON encoding: its WAL line cannot be produced; that is a
+        # failing write like any other - reported, and nothing else affected
+        out['unenc'] = rng.choice([{'$bytes': 'fffe80'}, {'$obj': 1}, {'$surrogate': 1}])
+    return out
 
 
 def wal_scenario(rng: random.Random, i: int) -> dict:
